@@ -85,8 +85,15 @@ def guard(fn, enc, seconds=20):
         raise Budget("time budget")
     old = signal.signal(signal.SIGALRM, on_alarm)
     signal.alarm(seconds)
+    # the library runs under CPython's DEFAULT recursion limit (the harness raises it for its own oracles): a call that only
+    # returns with a raised limit does not "return" for a user
+    old_limit = sys.getrecursionlimit()
+    sys.setrecursionlimit(1000)
     try:
-        raw = fn()
+        try:
+            raw = fn()
+        finally:
+            sys.setrecursionlimit(old_limit)
         signal.alarm(0)
         return [[0]] + enc(raw), raw
     except Budget as b:
